@@ -502,6 +502,10 @@ func (p *Pattern) matchIdentical(state *MatcherState, sub *pattern, typ types.Ty
 		if typeName != obj.Name() {
 			return false
 		}
+		// pkg.T is a package-level type, not a T declared inside a function.
+		if scope := obj.Parent(); scope != nil && scope != pkg.Scope() {
+			return false
+		}
 		objPath := obj.Pkg().Path()
 		if vendorPos := strings.LastIndex(objPath, "/vendor/"); vendorPos != -1 {
 			objPath = objPath[vendorPos+len("/vendor/"):]
